@@ -618,7 +618,10 @@ def emitted_feature_tests(ctx, root, spec, settings, payload):
         ctx.traces += 1
         if p.returncode != 0:
             tail = [ln for ln in p.stdout.split("\n") if ln.startswith(("FAILED", "ERROR", "E "))][:4]
-            ctx.fail("emitted-feature-test-failed", f"emitted unit tests for the feature fail in {os.path.basename(tf)}: {tail or p.stdout[-300:]}", payload)
+            twice = any(len(set(e.get("fields") or [])) != len(e.get("fields") or []) for e in settings
+                        if by_sel[e["selector"]]["service"].lower() == svc)
+            ctx.fail("emitted-feature-test-failed" + (":field-listed-twice" if twice else ""),
+                     f"emitted unit tests for the feature fail in {os.path.basename(tf)}: {tail or p.stdout[-300:]}", payload)
 
 
 ALL_PATHS = ("sync", "asyncio", "rest", "rest_asyncio")
@@ -887,7 +890,7 @@ def run_corpus(ctx):
                 blob = json.load(fh)
             p = blob.get("payload", blob)
             t3(ctx, ctx.rng("corpus", fn), p["spec"], p["settings"], p.get("class", "corpus"), script=p.get("script"),
-               paths=tuple(p.get("paths", ALL_PATHS)))
+               paths=tuple(p.get("paths", ALL_PATHS)), run_tests=bool(p.get("run_tests")))
             ctx.count("stream", "corpus")
 
 
@@ -956,7 +959,7 @@ def replay(ctx, payload):
     import leanio
     ctx.driver = leanio.Driver()
     t3(ctx, ctx.rng("replay"), payload["spec"], payload["settings"], payload.get("class", "replay"), script=payload.get("script"),
-       paths=tuple(payload.get("paths", ALL_PATHS)))
+       paths=tuple(payload.get("paths", ALL_PATHS)), run_tests=bool(payload.get("run_tests")) or "test" in str(payload.get("class")))
     if not ctx.failures:
         files = build_files(payload["spec"])
         api, _ = genrun.build_api(apigen.request(files, "transport=grpc+rest,autogen-snippets=false"))
